@@ -6,6 +6,7 @@ import P2PVerif.Driver.Key
 import P2PVerif.Driver.Addr
 import P2PVerif.Driver.Frag
 import P2PVerif.Driver.Ke
+import P2PVerif.Driver.Hub
 open P2PVerif.Driver
 
 def streams : List (String × Stream) := [
@@ -15,7 +16,8 @@ def streams : List (String × Stream) := [
   ("key", keyStream),
   ("addr", addrStream),
   ("frag", fragStream),
-  ("ke", keStream)
+  ("ke", keStream),
+  ("hub", hubStream)
 ]
 
 def main (args : List String) : IO UInt32 := do
